@@ -490,6 +490,10 @@ mod real {
 pub fn run(ctx: &mut Ctx) {
     #[cfg(not(miri))]
     real::run(ctx);
+    // `--x-only real-daemon`: only the class on the real bus (the ThreadSanitizer layer: that class is the one with real threads)
+    if ctx.args.extra.get("only").map(|s| s == "real-daemon").unwrap_or(false) {
+        return;
+    }
     for (k, d) in directed().into_iter().enumerate() {
         let i = 2_000_000_000 + k as u64;
         if !ctx.want(i) {
